@@ -7,6 +7,7 @@ import DsdVerif.Model.Units
 import DsdVerif.Spec.Symbols
 import DsdVerif.Model.Complex
 import DsdVerif.Model.World
+import DsdVerif.Gen.Grammars
 
 namespace Dsd.Driver
 open Dsd
@@ -69,6 +70,22 @@ def showSplit (parts : List (List (List String) × PairTable)) : String :=
   " ; ".intercalate (parts.map (fun p =>
     (match strandTableToSequence "+" p.1 with | .ok s => showNames s | .error _ => "<empty>")
       ++ " / " ++ String.ofList (ptToDb p.2)))
+
+partial def showTree : PP.Tree → String
+  | .tok s => "\"" ++ String.join (s.toList.map (fun c =>
+      if c == '\\' then "\\\\" else if c == '"' then "\\\"" else if c == '\n' then "\\n" else String.singleton c)) ++ "\""
+  | .grp ts => "[" ++ ", ".intercalate (ts.map showTree) ++ "]"
+
+def showTrees (ts : List PP.Tree) : String := "[" ++ ", ".intercalate (ts.map showTree) ++ "]"
+
+def hexVal (c : Char) : Nat :=
+  if '0' ≤ c ∧ c ≤ '9' then c.toNat - '0'.toNat
+  else if 'a' ≤ c ∧ c ≤ 'f' then c.toNat - 'a'.toNat + 10 else 0
+
+/-- text is sent as hex of its code points (4 hex digits each) -/
+def unhex : List Char → List Char
+  | a :: b :: c :: d :: rest => Char.ofNat (((hexVal a * 16 + hexVal b) * 16 + hexVal c) * 16 + hexVal d) :: unhex rest
+  | _ => []
 
 def step (line : String) : String :=
   match line.splitOn "\t" with
@@ -161,6 +178,14 @@ def step (line : String) : String :=
       match splitPt (pt.length + 1) stab pt with
       | .ok parts => "ok " ++ showSplit parts
       | .error e => showErr e
+  | ["pil.parse", hex] =>
+    match PP.parseDoc Gen.pil_env Gen.pil_grammar (String.ofList (unhex hex.toList)) with
+    | some ts => "ok " ++ showTrees ts
+    | none => "err ParseException"
+  | ["ssw.parse", hex] =>
+    match PP.parseDoc Gen.ssw_env Gen.ssw_grammar (String.ofList (unhex hex.toList)) with
+    | some ts => "ok " ++ showTrees ts
+    | none => "err ParseException"
   | ["symbols.unresolved"] =>
     "refs " ++ " ".intercalate (Symbols.unresolved.map (fun r => r.1 ++ ":" ++ r.2.1 ++ ":" ++ r.2.2))
   | _ => "bad-op"
